@@ -1,0 +1,43 @@
+//go:build verif
+
+package main
+
+import (
+	"os"
+	"runtime"
+	"strconv"
+	"sync/atomic"
+	"time"
+)
+
+// verifJitter perturbs the natural schedule of the scan workers (build tag verif only): with
+// PINT_VERIF_JITTER=<seed> set, every call yields and sometimes sleeps for a pseudo-random, seed
+// dependent time. It never reorders anything itself; without the variable it does nothing.
+var (
+	verifJitterSeed = func() uint64 {
+		v, err := strconv.ParseUint(os.Getenv("PINT_VERIF_JITTER"), 10, 64)
+		if err != nil {
+			return 0
+		}
+		return v*2654435761 + 1
+	}()
+	verifJitterN atomic.Uint64
+)
+
+func verifJitter() {
+	if verifJitterSeed == 0 {
+		return
+	}
+	x := verifJitterSeed + verifJitterN.Add(1)*0x9E3779B97F4A7C15
+	x ^= x >> 33
+	x *= 0xff51afd7ed558ccd
+	x ^= x >> 33
+	switch x % 4 {
+	case 0:
+		runtime.Gosched()
+	case 1:
+		time.Sleep(time.Duration(x>>8%200) * time.Microsecond)
+	case 2:
+		time.Sleep(time.Duration(x>>8%3) * time.Millisecond)
+	}
+}
